@@ -413,7 +413,9 @@ struct MemEngine : Engine {
             if (ok && t0 > 0) { k = k % t0; if (reg_out) std::memcpy(areg[c.r], areg_before, 64); restore_after_probe(c, pages); ok = run_call(c, poison, k, &total, &fired, -1); }
         } else if (all_k) {
             long t0 = 0; int f0 = 0; ok = run_call(c, poison, -1, &t0, &f0, -1);
-            for (long kk = 0; ok && kk < t0 && kk < 4096; ++kk) {
+            // every instruction index when the call is short; an evenly spread 256 of them when it is long (unoptimised builds)
+            const long kstep = t0 > 256 ? (t0 + 255) / 256 : 1;
+            for (long kk = 0; ok && kk < t0 && kk < 65536; kk += kstep) {
                 for (int i = 0; i < g_nneigh; ++i) tag_bytes(s.unum("ntag") * 2 + 1 + (std::uint64_t)i + (std::uint64_t)kk * 7, g_neigh[i].val, g_neigh[i].len);
                 if (reg_out) std::memcpy(areg[c.r], areg_before, 64);
                 ok = run_call(c, poison, kk, &total, &fired, -1);
@@ -557,8 +559,9 @@ struct MemEngine : Engine {
         bool ok = true;
         if (do_neigh) {
             long t0 = 0; int f0 = 0; ok = run_call(c, poison, -1, &t0, &f0, -1);
-            long kmax = s.str("k", "0") == "all" ? std::min<long>(t0, 2048) : 1; long kbase = s.str("k", "0") == "all" ? 0 : (t0 ? (long)(s.unum("k") % (std::uint64_t)t0) : 0);
-            for (long kk = 0; ok && kk < kmax; ++kk) {
+            long kmax = s.str("k", "0") == "all" ? std::min<long>(t0, 65536) : 1; long kbase = s.str("k", "0") == "all" ? 0 : (t0 ? (long)(s.unum("k") % (std::uint64_t)t0) : 0);
+            const long kstep = kmax > 256 ? (kmax + 255) / 256 : 1;
+            for (long kk = 0; ok && kk < kmax; kk += kstep) {
                 tag_bytes(s.unum("ntag") * 2 + 1 + (std::uint64_t)kk * 5, g_neigh[0].val, 8);
                 ok = run_call(c, poison, kbase + kk, &total, &fired, -1); if (!ok) break;
                 if (fired) { st->faults["neighbour_write_at_instruction_k"]++; std::memcpy(model + g_neigh[0].off, g_neigh[0].val, 8);
